@@ -47,6 +47,17 @@ for p in props:
         out.append('')
         out.append('Seeded change `%s`: %s — needs: %s — **%s**' % (m.get('dir', '?'), m.get('summary', ''), m.get('needs', ''), m.get('detected', 'not yet run')))
     out.append('')
+# seeded/SUMMARY.md
+rows = ['# Seeded changes and the checks that report them', '',
+        'Each directory holds patch.diff, the demonstration test and meta.json (what the change needs in order to manifest, what was confirmed in a scratch worktree, and the verdict of `VERIF_REPO=<worktree> ./check <ID> quick`).', '',
+        '| property | change | needs | confirmed (applies / demo passes without / demo fails with / existing tests pass with) | check verdict |', '|---|---|---|---|---|']
+for pid in sorted(seeded):
+    for m in seeded[pid]:
+        c = m.get('confirmed', {})
+        conf = '/'.join('yes' if c.get(k) else 'NO' for k in ('patch_applies', 'demo_passes_without_change', 'demo_fails_with_change', 'existing_tests_of_touched_packages_pass_with_change'))
+        rows.append('| %s | %s | %s | %s | %s |' % (pid, (m.get('summary', '') or '').replace('|', '/').replace('\n', ' ')[:400], (m.get('needs', '') or '').replace('|', '/').replace('\n', ' ')[:300], conf, m.get('detected', '')))
+if seeded:
+    open(os.path.join(root, 'seeded', 'SUMMARY.md'), 'w').write('\n'.join(rows) + '\n')
 txt = '\n'.join(out)
 dp = os.path.join(root, 'DESIGN.md')
 d = open(dp).read()
